@@ -213,6 +213,7 @@ class rewrite_goal_with_prev(Tactic):
                        beta_norm_conv())
         eq_th = cv.eval(C)
         new_goal = eq_th.prop.rhs
+        assert new_goal != C, "rewrite_goal_with_prev: unable to apply fact"
 
         prevs = list(prevs)
         if not new_goal.is_reflexive():
